@@ -19,7 +19,6 @@ import (
 	"fmt"
 	"os"
 	"runtime/debug"
-	"runtime/pprof"
 	"sort"
 	"strings"
 	"time"
@@ -360,12 +359,6 @@ func main() {
 		return
 	}
 	run := ev.Start("C06", "exploration")
-	if pf := os.Getenv("C06_PROFILE"); pf != "" {
-		f, _ := os.Create(pf)
-		_ = pprof.StartCPUProfile(f)
-		defer pprof.StopCPUProfile()
-		time.AfterFunc(8*time.Second, func() { pprof.StopCPUProfile(); f.Close(); os.Exit(0) })
-	}
 	time.AfterFunc(20*time.Minute, func() { ev.ToolError("C06: watchdog: the enumeration did not finish in 20 minutes") })
 
 	replayID := ""
@@ -396,6 +389,12 @@ func main() {
 	// ---- part 1: in-process product (sequential: the exit stub, the global
 	// loggers and the std logger are process-wide)
 	cores := coreKinds()
+	// C06_PART=crash|inproc restricts a run to one part (used when demonstrating
+	// which part catches a mutant); a normal run does both.
+	part := os.Getenv("C06_PART")
+	if part == "crash" {
+		cores = nil
+	}
 	hooks := hookSettings(run.Thorough())
 	ders := derivations(run.Thorough())
 	for _, ck := range cores {
@@ -425,6 +424,9 @@ func main() {
 
 	// ---- part 2: real processes
 	runs := crashPlan(run.Thorough())
+	if part == "inproc" {
+		runs = nil
+	}
 	var todo []crashRun
 	for _, r := range runs {
 		if replayID != "" && r.id() != replayID {
@@ -460,7 +462,7 @@ func main() {
 		"exhaustive":          true,
 		"inprocess_cases":     inproc,
 		"child_runs":          len(todo),
-		"cores":               len(cores),
+		"cores":               len(coreKinds()),
 		"hook_settings":       len(hooks),
 		"derivations":         len(ders),
 		"call_forms":          len(d.forms),
